@@ -4,7 +4,7 @@
     [sreach] strong reachability.  [order_complete h]: the heap walk meets every object.  The premise
     [gc ... = Some _] says the model's fuel sufficed (None = out of fuel). *)
 From Coq Require Import ZArith List Bool PArith FMapPositive.
-From ChibiV Require Import C16.Model C16.Spec C16.Proofs C16.GcProofs C16.FdProofs C16.FdSafety C16.History C16.HistProofs C16.FdOnce C16.Fuel C16.Examples C16.LayoutCheck C16.ScanOrder C16.Gate C16.GateProofs Gen.C16_Layout.
+From ChibiV Require Import C16.Model C16.Spec C16.Proofs C16.GcProofs C16.FdProofs C16.FdSafety C16.History C16.HistProofs C16.FdOnce C16.Fuel C16.Examples C16.LayoutCheck C16.ScanOrder C16.Gate C16.GateProofs C16.NumOs C16.NumOsProofs C16.NoLeak Gen.C16_Layout.
 Import ListNotations.
 
 (** the mark phase + ephemeron fixpoint mark exactly the SPEC's live set *)
@@ -327,3 +327,47 @@ Print Assumptions weak_gate_as_modelled.
 Theorem open_retry_skeleton_as_modelled : open_retry_as_modelled = [1; 1; 1]%Z.
 Proof. exact open_retry_as_modelled_l. Qed.
 Print Assumptions open_retry_skeleton_as_modelled.
+
+(* ------------------------------------------------------------------ round 3: number-level OS model (C16/NumOs.v) *)
+(** the OS never hands out a number that is open (open / dup / pipe / socketpair take [lowest_free]) *)
+Theorem lowest_free_is_free : forall t, tab_find (lowest_free t) t = None.
+Proof. exact lowest_free_is_free_l. Qed.
+Print Assumptions lowest_free_is_free.
+
+(** in EVERY number-level history — closes by raw integer, closes / dups / dup2s of fileno objects that are already closed,
+    collections whose finalisers close stale numbers — an open number names exactly one file instance at any time *)
+Theorem number_names_one_instance : forall ops n f ns,
+  nrun ops (ninit n f) = Some ns -> NoDup (map fst (tab ns)).
+Proof. exact number_names_one_instance_l. Qed.
+Print Assumptions number_names_one_instance.
+
+(** what a raw close does: open R0; close its NUMBER by hand; open R1 (same number again); drop R0; collect — R1's object is live,
+    open and closable, yet its number is no longer open: the stale owner's finaliser released R1's file (instances 0 and 1
+    both released).  This is why History.v keeps raw closes outside its domain and FdOnce.v can prove release-once there;
+    the collector itself did what it must (R0 was unreachable and open). *)
+Theorem raw_close_lets_a_stale_owner_close_anothers_descriptor :
+  exists ns a o n c, nrun ops_raw (ninit 2 100) = Some ns /\
+    slot (ist ns) 1 = Ptr a /\ PM.find a (objs (hp (ist ns))) = Some o /\ kind o = KFileno true false n c /\
+    names ns n = None /\ rel ns = [0; 1]%Z.
+Proof. exact raw_close_lets_a_stale_owner_close_anothers_descriptor_l. Qed.
+Print Assumptions raw_close_lets_a_stale_owner_close_anothers_descriptor.
+
+(* ------------------------------------------------------------------ round 3: no descriptor is leaked (C16/NoLeak.v) *)
+(** at every point of EVERY history: each descriptor the process has opened is either released (in the close log) or owned
+    by an open, closable owner object (fileno or stream port) that is still in the heap *)
+Theorem history_no_orphan_descriptors : forall ops n fl st,
+  run ops (init n fl) = Some st ->
+  forall x, (0 <= x < nextfd st)%Z -> In x (oslog st) \/ exists a, open_owner (objs (hp st)) a x.
+Proof. exact history_no_orphan_descriptors_l. Qed.
+Print Assumptions history_no_orphan_descriptors.
+
+(** right after a collection, at any point of any history: a descriptor that is still open belongs to an owner that was LIVE
+    when the collection started — what the program dropped holds no descriptor any more.  With collect-and-retry on EMFILE
+    (theorem open_retry_skeleton_as_modelled) this is "a program that keeps dropping unclosed ports does not run out of
+    descriptors": after the forced collection the open descriptors number at most the live owners. *)
+Theorem history_open_descriptors_have_live_owners_after_gc : forall ops n fl st0 st,
+  run ops (init n fl) = Some st0 -> step OGc st0 = Some st ->
+  forall x, (0 <= x < nextfd st)%Z -> ~ In x (oslog st) ->
+  exists a, open_owner (objs (hp st)) a x /\ live (objs (hp st0)) (roots_of st0) a.
+Proof. exact history_open_descriptors_have_live_owners_after_gc_l. Qed.
+Print Assumptions history_open_descriptors_have_live_owners_after_gc.
